@@ -44,6 +44,9 @@ type Config struct {
 	Interceptor  string // "", "lower", "trim", "fold"
 	StaticRNG    bool
 	Equivalence  string // "", "nodup"
+	// ReuseOptions: write options with the same content are built once per resource and the same option value is
+	// passed again on later calls (a caller keeping its options in a variable).
+	ReuseOptions bool
 }
 
 func (c Config) String() string {
@@ -61,8 +64,8 @@ func (c Config) String() string {
 		kind = "Value"
 		ini = []string{Txt(c.InitialValue)}
 	}
-	return fmt.Sprintf("%s<%s> initial=[%s] writable=%s idInterceptor=%q staticRNG=%v equivalence=%q", kind,
-		c.Proto.ProtoReflect().Descriptor().Name(), strings.Join(ini, " "), lib.MaskString(c.Writable), c.Interceptor, c.StaticRNG, c.Equivalence)
+	return fmt.Sprintf("%s<%s> initial=[%s] writable=%s idInterceptor=%q staticRNG=%v equivalence=%q reuseOptions=%v", kind,
+		c.Proto.ProtoReflect().Descriptor().Name(), strings.Join(ini, " "), lib.MaskString(c.Writable), c.Interceptor, c.StaticRNG, c.Equivalence, c.ReuseOptions)
 }
 
 // InterceptorFn returns the id interceptor by name.
@@ -152,8 +155,11 @@ type Runner struct {
 	History []string
 	// Writes counts successful / failed writes.
 	OKWrites, FailedWrites int
+	// SameObjectWrites counts writes that were handed the object a Get had returned.
+	SameObjectWrites int
 	OutcomeKey             []string
 	stopped                bool
+	optCache               *OptCache
 	prevValue              proto.Message // Value: the stored message before the write being processed
 	// Observe, when set, is told about every message that crosses the API boundary: "input" (the message handed to a
 	// write, right after the call returned), "result", "read", "event-new", "event-old". It may be called from consumer goroutines.
@@ -187,6 +193,22 @@ func (r *Runner) CancelSub(i int) bool {
 
 // NewRunner builds the resource, the model and opens the subscriptions (so their seeds are the initial contents).
 func NewRunner(cfg Config, subs ...SubSpec) *Runner {
+	r := newRunner(cfg, subs...)
+	if cfg.ReuseOptions {
+		r.optCache = &OptCache{}
+	}
+	return r
+}
+
+// OptionsReused reports how many option values were passed a second (or later) time.
+func (r *Runner) OptionsReused() int {
+	if r.optCache == nil {
+		return 0
+	}
+	return r.optCache.Reused
+}
+
+func newRunner(cfg Config, subs ...SubSpec) *Runner {
 	r := &Runner{Cfg: cfg, Clock: &TickClock{}}
 	opts := []resource.Option{resource.WithClock(r.Clock)}
 	m := &Store{IsValue: cfg.IsValue, Proto: cfg.Proto, Writable: lib.CloneMask(cfg.Writable), Interceptor: InterceptorFn(cfg.Interceptor), Items: map[string]*Entry{}}
@@ -420,6 +442,7 @@ func (r *Runner) Do(op Op) error {
 	var opts []resource.WriteOption
 	var canary func() error
 	var in proto.Message
+	sameObject := false
 	func() {
 		defer func() { panicked = recover() }()
 		switch op.Kind {
@@ -444,19 +467,19 @@ func (r *Runner) Do(op Op) error {
 			}
 			list = r.Col.List(ropts...)
 		case OpSet:
-			in = proto.Clone(op.Val)
-			opts, canary = withCanaries(op.WriteOptions(log))
+			in = r.inputFor(op, &sameObject)
+			opts, canary = withCanaries(op.WriteOptionsReusing(r.optCache, log))
 			ret, err = r.Val.Set(in, opts...)
 		case OpAdd:
 			in = proto.Clone(op.Val)
-			opts, canary = withCanaries(op.WriteOptions(log))
+			opts, canary = withCanaries(op.WriteOptionsReusing(r.optCache, log))
 			ret, err = r.Col.Add(op.ID, in, opts...)
 		case OpUpdate:
-			in = proto.Clone(op.Val)
-			opts, canary = withCanaries(op.WriteOptions(log))
+			in = r.inputFor(op, &sameObject)
+			opts, canary = withCanaries(op.WriteOptionsReusing(r.optCache, log))
 			ret, err = r.Col.Update(op.ID, in, opts...)
 		case OpDelete:
-			opts, canary = withCanaries(op.WriteOptions(log))
+			opts, canary = withCanaries(op.WriteOptionsReusing(r.optCache, log))
 			ret, err = r.Col.Delete(op.ID, opts...)
 		}
 	}()
@@ -466,8 +489,12 @@ func (r *Runner) Do(op Op) error {
 		}
 	}
 	// the caller may do what it likes with the message it handed in once the call is over
-	if in != nil && r.Observe == nil {
+	if in != nil && r.Observe == nil && !sameObject {
 		lib.Scribble(in)
+	}
+	if sameObject {
+		r.SameObjectWrites++
+		in = nil // the caller got it from a read: it is not the caller's to change, and it is observed as a read result
 	}
 	c1 := r.Clock.Peek()
 	if panicked != nil {
@@ -583,7 +610,7 @@ func (r *Runner) Do(op Op) error {
 	// record times and expected events
 	if out.Event != nil {
 		be := *out.Event
-		if op.WriteTick > 0 {
+		if op.WriteTick != 0 {
 			be.TickLo, be.TickHi, be.Exact = op.WriteTick, op.WriteTick, true
 		} else {
 			be.TickLo, be.TickHi = c0, c1
@@ -598,6 +625,24 @@ func (r *Runner) Do(op Op) error {
 		r.expect(be)
 	}
 	return r.compareState(op)
+}
+
+// inputFor returns the message handed to the write: a private copy of op.Val or, for SameObject ops, the object an
+// unmasked Get returns right now (when it still equals op.Val).
+func (r *Runner) inputFor(op Op, same *bool) proto.Message {
+	if op.SameObject && op.UpdateMask == nil && r.Cfg.Writable == nil && op.Before != "delta" {
+		var got proto.Message
+		if r.Cfg.IsValue {
+			got = r.Val.Get()
+		} else {
+			got, _ = r.Col.Get(op.ID)
+		}
+		if got != nil && proto.Equal(got, op.Val) {
+			*same = true
+			return got
+		}
+	}
+	return proto.Clone(op.Val)
 }
 
 // withCanaries hands the options over the way a caller with a longer option list does: as a sub-slice whose backing
